@@ -1,5 +1,6 @@
-(* The constants of Model/DbIO.v are the constants found in the source on this run (Gen/DbIOFacts.v is regenerated
-   from /repo's db.py by harness/facts_dbio.py before every build). *)
+(* C08 (source-derived obligations) - the constants of Model/DbIO.v are the constants found in the SOURCE TEXT of db.py on this
+   run (harness/facts_dbio.py, `ast` -> Gen/DbIOFacts.v).  When the extractor cannot read the source this file is reported as not
+   attempted (harness/core.py, check_properties_file); when it can, the theorem must hold. *)
 From E3FP Require Import Base.Prelude Model.DbIO Gen.DbIOFacts.
 Open Scope Z_scope.
 
@@ -11,7 +12,7 @@ Definition dtype_code (d : dtype) : string * Z :=
 
 Definition subset (a b : list string) : bool := forallb (fun k => existsb (String.eqb k) b) a.
 
-Lemma source_constants_lemma :
+Theorem source_constants :
   src_extraction_ok = true /\
   src_savez_keys = fixed_keys /\
   (forall k, (src_savez_prefix ++ k)%string = prefix_key k) /\
@@ -22,3 +23,4 @@ Lemma source_constants_lemma :
   src_txt_formats = ["{0:s}"; " {1:s}"]%string /\ src_txt_terminator_is_newline = true /\
   src_dtypes = map (fun k => dtype_code (kind_dtype k)) [KBit; KCount; KFloat].
 Proof. repeat split; reflexivity. Qed.
+Print Assumptions source_constants.
